@@ -72,6 +72,12 @@ def clientCalls : List String :=
 def skel_builtin_target_deps : String :=
   "(block (for _ (call (. it Next) (u& v1)) _ (block (var (v0) (* (. label Label)) ()) (typeswitch _ _ (case ((. starlark String)) (:= (v2 v3) ((call (. label Parse) (call string v1)))) (= (v2 v3) ((call (. v2 RelativeTo) (. (. m label) Package)))) (= (v0) (v2))) (case (Target) (= (v0) ((call (. v1 Label))))) (default)) (= (dependencies) ((call append dependencies (call (. v0 String))))))))"
 
+def skel_Project_Run : String :=
+  "(block (:= (v3) ((call (. runner Run) v0 (call (. v1 String))))))"
+
+def runnerEntryPoints : List String :=
+  ["Run"]
+
 def skel_client_Evaluate : String :=
   "(block (range v0 v1 (call (. engine EvaluateTargets) deps ...) (block (if _ (!= (. v1 Error) nil) (block (return (call (. fmt Errorf) \"dependency %v failed\" (index deps v0)))) _))))"
 
